@@ -63,9 +63,12 @@ def _const_int(op):
 
 def mech_const_divisor(site):
     if site.kind == "divzero":
-        d = _const_int(site.extra["ops"][0])
-        if d is not None and d != 0:
-            return "const-divisor (non-zero constant)"
+        # the assert's operand is the dividend; the divisor is the operand of the `Eq(divisor, 0)` that feeds the condition
+        for o in F.origins(site.fn, site.term["cond"], depth=3, through_calls=False):
+            if o.kind == "binop" and o.extra == "Eq":
+                l, r = _const_int(o.place["l"]), _const_int(o.place["r"])
+                if l is not None and r is not None and (l != 0 or r != 0) and (l == 0 or r == 0):
+                    return "const-divisor (non-zero constant)"
     if site.kind == "overflow" and site.detail.split(" ")[0] in ("Div", "Rem"):
         d = _const_int(site.extra["ops"][1])
         if d is not None and d not in (0, -1):
@@ -78,7 +81,7 @@ def mech_counter(site):
     value that does not derive from a cast of data: bounded by the number of iterations / bytes"""
     if site.kind != "overflow":
         return None
-    op, tys = site.detail.split(" ")
+    op, tys = site.detail.split(" ")[:2]
     if op != "Add":
         return None
     t = tys.split(",")[0]
@@ -95,6 +98,14 @@ def mech_counter(site):
         if o.kind == "cast":
             return None
     return "counter (unsigned 64-bit + small constant, no data cast in provenance: bounded by iterations/bytes < 2^64)"
+
+
+def mech_const_ctor(site):
+    if site.kind == "api:chrono-ctor" and site.call is not None and site.call.args:
+        v = _const_int(site.call.args[0])
+        if v is not None and abs(v) < 2 ** 31:
+            return "constant argument within range"
+    return None
 
 
 def _dominating_guards(site):
@@ -181,7 +192,7 @@ def req_len_guard(site, req):
                 other = l if _const_int(r) is not None else r
                 if cv is None:
                     continue
-                if any(oc.kind == "call" and short(oc.call.name) == "alloc::vec::Vec::len"
+                if any(oc.kind == "call" and short(oc.call.name) in ("alloc::vec::Vec::len", "core::slice::<impl [T]>::len")
                        for oc in F.origins(fn, other, depth=3, through_calls=False)):
                     if n is None or cv < n:
                         n = cv
@@ -252,7 +263,7 @@ def run_inventory(R, rid, root_name, desc, restrict=None):
     for key in sorted(by_key):
         ss = by_key[key]
         for idx, s in enumerate(sorted(ss, key=lambda s: (s.file, s.line))):
-            how = mech_const_divisor(s) or mech_counter(s)
+            how = mech_const_divisor(s) or mech_counter(s) or mech_const_ctor(s)
             if how:
                 R.ok(rid, key, "mechanical: " + how, s.loc(), nontrivial=False)
                 continue
